@@ -275,7 +275,7 @@ LIFE_PROPERTIES = ["Prop_C07_FitIsFresh", "Prop_C10_ReadOnly", "Prop_C17_RejectU
 
 
 def life_consts(**over):
-    c = dict(Labels={"a", "b", "c", "d"}, InitArms=["a", "b", "c"], NRows=10, Offsets={0, 3}, MaxChunk=3, MaxHist=6, MinFit=1, MinArms=2,
+    c = dict(Labels={"a", "b", "c", "d"}, InitArms=["a", "b", "c"], NRows=10, Offsets={0, 1, 3}, WideOffsets=set(), MaxChunk=3, MaxHist=6, MinFit=1, MinArms=2,
              MaxDepth=4, Ops={"fit", "partial_fit", "add_arm", "remove_arm", "predict", "predict_expectations"},
              RejectKinds=set(), QueryRows={1, 3}, Quantiles={(1, 2), (1, 1)}, Dev=set())
     c.update(over)
